@@ -8,7 +8,9 @@ from . import core
 from .core import cq_Z, cq_list, cq_nat
 
 THEOREMS = ["C22_decision", "C22_accept", "C22_accept_semantic", "C22_arguments", "C22_creation_order",
-            "C22_decision_refuted", "C22_arguments_refuted", "C22_example"]
+            "C22_decision_refuted", "C22_arguments_refuted", "C22_example",
+            "C22_delay_args_follow", "C22_delay_args_value", "C22_simplify_decision", "C22_delay_args_follow_refuted",
+            "C22_simplify_example"]
 
 BASE = 100                    # id of delayed-state input k is BASE + k  (_pymoca_delay_k)
 KIND = {"const": "KConst", "param": "KParam", "finput": "(KInput true)", "input": "(KInput false)",
@@ -19,6 +21,7 @@ TAG_ASSERT = "loop-delay-expression-free-symbol"
 TAG_VEC = "loop-delay-expression-vector-element"
 TAG_CACHEVEC = "cache-duration-vector-element"
 TAG_RPV = "replace-parameter-values-delay-argument"
+TAG_RAE = "reduce-affine-delay-arguments-function"
 
 # ---------------------------------------------------------------------------------------------
 # Case (JSON):
@@ -49,8 +52,8 @@ def pr(e, lvl=0):
     if k == "aadd":
         s = "%s + %s" % (pr(e[1], 0), pr(e[2], 0))
         return "(%s)" % s if lvl >= 1 else s
-    if k == "vi":
-        return "%s[i]" % e[1]
+    if k == "vi":                          # ["vi", name] = name[i];  ["vi", name, off] = name[i+off]
+        return "%s[i]" % e[1] if len(e) < 3 else "%s[i%+d]" % (e[1], e[2])
     if k == "i":
         return "i"
     if k == "time":
@@ -319,7 +322,7 @@ def evaluate(e, pt, dly, i=None):
     if k == "el2":
         return Fraction(pt["vals"][e[1]][(e[2] - 1) * e[4] + e[3] - 1])
     if k == "vi":
-        return Fraction(pt["vals"][e[1]][i - 1])
+        return Fraction(pt["vals"][e[1]][i - 1 + (e[2] if len(e) > 2 else 0)])
     if k == "i":
         return Fraction(i)
     if k == "time":
@@ -361,6 +364,18 @@ def alias_applies(case, rhs):
     if not o.get("detect_aliases"):
         return False
     leaf = rhs[1] if rhs[0] == "neg" else rhs
+    if leaf[0] == "v":
+        # an earlier step of _simplify_once may already have replaced the target in the equations: `w = p` has
+        # become `w = 5` / `w = c*p2` and w is no alias any more
+        for v in case.get("vars", []):
+            if v["name"] == leaf[1] and v["kind"] in ("const", "param"):
+                expr_valued = bool(v.get("bind_expr") or v.get("bind"))
+                if v["kind"] == "param" and ((o.get("replace_parameter_values") and not expr_valued) or
+                                             (o.get("replace_parameter_expressions") and expr_valued)):
+                    return False
+                if v["kind"] == "const" and (o.get("replace_constant_values") or
+                                             (o.get("replace_constant_expressions") and expr_valued)):
+                    return False
     return leaf[0] == "v" or (leaf[0] == "el" and bool(o.get("expand_vectors")))
 
 
@@ -522,8 +537,16 @@ def judge1(case, res):
                     for r in recs for x in (r["e"], r["d"]) for a in dep_atoms(x, dly)):
             return (TAG_RPV, "accepted, but delay_arguments_function has a free parameter symbol: "
                     "replace_parameter_values removes the parameter without substituting it in the delay arguments")
+        if (case.get("options") or {}).get("reduce_affine_expression") and "free" in res["func"].get("msg", "") and \
+                any(category(rcase, a, der_names(rcase)) not in ("constant", "parameter", "time", "loop index")
+                    for r in recs for x in (r["e"], r["d"]) for a in dep_atoms(x, dly)):
+            return (TAG_RAE, "accepted, but with reduce_affine_expression delay_arguments_function has free state / "
+                    "algebraic / input symbols (its inputs are the new *_vector symbols)")
         return (TAG_FUNC if info["loop_dur"] else "function-fails",
                 "accepted but delay_arguments_function cannot be built/evaluated: %s" % res["func"].get("msg", "")[-160:])
+    if res.get("attr_exc") or ("attr_values" in res and res["attr_values"] != res["values"]):
+        return ("delay-arguments-attribute", "model.delay_arguments (%s) does not evaluate like delay_arguments_function: %s vs %s"
+                % ("CachedModel" if res.get("cached") else "Model", res.get("attr_exc") or res.get("attr_values"), res["values"]))
     if len(res["shapes"]) != 2 * len(want):
         return ("argument-count", "%d outputs for %d delay states" % (len(res["shapes"]), len(want)))
     for pi, (pt, vals) in enumerate(zip(case["points"], res["values"])):
@@ -609,20 +632,59 @@ def enc_point(pt, ids):
     return "(mkEnv %s %s %s)" % (cq_Z(pt["time"]), cq_list(vals), cq_list(ders))
 
 
+def has_offset(case):
+    def walk(e):
+        return (e[0] == "vi" and len(e) > 2) or any(walk(c) for c in children(e))
+    return any(walk(l) or walk(r) for q in case["eqs"] for l, r in sides(q))
+
+
 def modelled(case):
     o = case.get("options") or {}
+    if has_offset(case):
+        return False                                  # x[i-1] in a loop delay: oracle only
     if any(k not in ("cache", "expand_vectors") for k in o) or any(q[0] == "aeq" for q in case["eqs"]):
         return False
     # expand_vectors splits loop delays into scalar delay states: same values, other output layout
     return not (o.get("expand_vectors") and any(q[0] == "for" for q in case["eqs"]))
 
 
+SIMP_KEYS = {"replace_parameter_expressions": "rpe", "replace_constant_expressions": "rce",
+             "eliminate_constant_assignments": "eca", "replace_parameter_values": "rpv", "replace_constant_values": "rcv",
+             "eliminable_variable_expression": "eve", "detect_aliases": "da"}
+
+
+def chain_modelled(case):
+    """Option sets the simplify model (Model/C22_simplify.v) covers: the seven substitution steps (+ expand_mx),
+    scalar models without for-equations / arrays / array-element references."""
+    o = case.get("options") or {}
+    if not o or any(k not in SIMP_KEYS and k != "expand_mx" for k in o):
+        return False
+    if any(q[0] != "eq" for q in case["eqs"]) or any(v["vec"] or v.get("mat") for v in case["vars"]):
+        return False
+    return all(v.get("bind") is None for v in case["vars"])
+
+
 def encode_case(case, res):
-    """-> Gallina term of type model * list envd * obs, or None when the observation has no model counterpart."""
-    if not modelled(case) or ((case.get("options") or {}).get("cache") and res.get("status") == "error"):
-        return None                                   # alias elimination / array delays / cache-path errors: oracle only
+    """-> Gallina term of type (model * list envd * obs) + (smodel * opts * list envd * obs) for check_any, or None
+    when the observation has no model counterpart."""
+    chain = chain_modelled(case)
+    if not chain and (not modelled(case) or ((case.get("options") or {}).get("cache") and res.get("status") == "error")):
+        return None                                   # array delays / cache-path errors / vector options: oracle only
     m, ids = enc_model(case)
     pts = cq_list([enc_point(p, ids) for p in case["points"]])
+    if chain:
+        if res.get("status") == "error":
+            return None
+        o = case["options"]
+        vals = []
+        for v in case["vars"]:
+            if v["kind"] in ("const", "param"):
+                ex = v["bind_expr"] if v.get("bind_expr") else ["num", v.get("value", 2)]
+                vals.append("(%s, %s)" % (cq_nat(ids[v["name"]]), enc_expr(ex, ids)))
+        elim = [cq_nat(ids[v["name"]]) for v in case["vars"] if v["name"].startswith("_")] \
+            if o.get("eliminable_variable_expression") else []
+        flags = " ".join("true" if o.get(k) else "false" for k in SIMP_KEYS)
+        m = "mkSM %s %s %s, mkOpts %s" % (m, cq_list(vals), cq_list(elim), flags)
     st = res.get("status")
     if st == "rejected":
         ob = "ORej"
@@ -649,7 +711,9 @@ def encode_case(case, res):
             ob = "(OAcc %s)" % cq_list(rows)
     else:
         return None
-    return "(%s, %s, %s)" % (m, pts, ob)
+    if chain:
+        return "(inr (%s, %s, %s))" % (m, pts, ob)
+    return "(inl (%s, %s, %s))" % (m, pts, ob)
 
 
 # ---- generators -----------------------------------------------------------------------------------
@@ -858,6 +922,10 @@ def gen_model(rng, p_bad=0.22, p_loopdep=0.04, p_nohelper=0.04, kind="random", p
                 vs.append({"name": yn, "kind": "plain", "vec": True, "bind": None})
                 indexed = rng.random() < 0.8
                 e = gen_expr(rng, True, indexed, p_vec=p_vec)
+                if indexed and lo >= 2 and rng.random() < 0.12:
+                    arr = rng.choice(["av", "uv"])
+                    e2 = [rng.choice(["add", "sub"]), e, ["sub", ["vi", arr], ["vi", arr, -1]]]
+                    e = e2 if consistent(e2) else e
                 want_bad = rng.random() < p_bad
                 if rng.random() < p_loopdep:                      # known-defect class: duration references i / v[i]
                     d = combine(rng, [leaf_allowed(rng, False), rng.choice([["vi", "pv"], ["vi", "ufv"], ["i"], ["vi", "av"], ["vi", "uv"]])])
@@ -1012,7 +1080,7 @@ def cache_cases(rng, n_random):
     out = []
     tab = category_cases(rng)
     for j, c in enumerate(tab):
-        if j % 4 == (0 if c["kind"].startswith("table:outside") else 3):
+        if j % 6 == (0 if c["kind"].startswith("table:outside") else 5):
             out.append(c)
     EL_OK[0] = False
     try:
@@ -1060,8 +1128,8 @@ def gen_chain_case(rng, names=None, dur=None, target=None):
     # an alias of a parameter / constant stops being one when its value or expression is substituted first
     subst = any(n in names for n in ("RPE", "RCE", "RPV", "RCV"))
     targets = [["v", "uf"], ["v", "u1"], ["v", "x1"], ["v", "a1"], ["neg", ["v", "uf"]]]
-    if not subst:
-        targets += [["v", "p1"], ["v", "c1"], ["v", "p2"], ["neg", ["v", "p1"]], ["v", "p1"]]
+    if not subst or rng.random() < 0.5:
+        targets += [["v", "p1"], ["v", "c1"], ["v", "p2"], ["neg", ["v", "p1"]], ["v", "p1"], ["v", "q1"], ["v", "k1"]]
     target = target or rng.choice(targets)
     zlit = rng.randint(1, 6)
     e1 = rng.choice([["mul", ["num", 2], ["v", "w1"]], ["add", ["v", "w2"], ["v", "uf"]], ["add", ["mul", ["num", 2], ["v", "w1"]], ["v", "p2"]]])
@@ -1132,7 +1200,7 @@ def gen_chain_case(rng, names=None, dur=None, target=None):
 def chain_table(rng):
     out = []
     for names in SIMP_SETS:
-        for d, t in ((["v", "_e1"], None), (["v", "q2"], None), (["add", ["v", "w2"], ["v", "z1"]], None)):
+        for d, t in ((["v", "_e1"], None), (["add", ["v", "q2"], ["v", "z1"]], None)):
             out.append(gen_chain_case(rng, names, dur=d, target=t))
     out.append(gen_chain_case(rng, ("EVE", "DA"), dur=["v", "_e1"], target=["v", "x1"]))      # the seeded shapes
     out.append(gen_chain_case(rng, ("RPE", "RCV"), dur=["v", "q1"]))
@@ -1198,6 +1266,46 @@ def category_cases(rng):
     return out
 
 
+def offset_cases(rng):
+    """for-loop delays whose delayed expression uses ONE array with two index expressions."""
+    out = []
+    for lo, hi, e in ((2, 3, ["sub", ["vi", "av"], ["vi", "av", -1]]), (2, 3, ["mul", ["vi", "av", -1], ["vi", "av"]]),
+                      (1, 2, ["add", ["vi", "av", 1], ["vi", "av"]]),
+                      (2, 3, ["add", ["mul", ["v", "p2"], ["sub", ["vi", "uv"], ["vi", "uv", -1]]], ["vi", "av"]]),
+                      (2, 2, ["sub", ["vi", "av", 1], ["vi", "av", -1]])):
+        vs = base_vars(rng) + [{"name": n, "kind": "plain", "vec": True, "bind": None} for n in ("yv1", "hv1")]
+        c = {"N": N, "vars": vs, "kind": "table:loop:two index expressions",
+             "eqs": [["eq", ["der", "x1"], ["sub", ["v", "u1"], ["v", "x1"]]],
+                     ["for", lo, hi, [["eq", ["vi", "hv1"], ["mul", ["vi", "uv"], ["v", "p2"]]],
+                                      ["eq", ["vi", "yv1"], ["delay", e, rng.choice([["v", "p1"], ["v", "uf"], ["num", 2]])]]]]]}
+        prune(rng, c, keep=0.05)
+        c["points"] = gen_points(rng, c, 2)
+        out.append(c)
+    return out
+
+
+RAE_SETS = [{"reduce_affine_expression": True}, {"reduce_affine_expression": True, "expand_mx": True},
+            {"reduce_affine_expression": True, "detect_aliases": True}]
+
+
+def rae_cases(rng):
+    """reject stream under reduce_affine_expression: every must-reject duration of the table (outside loops) with
+    one of the RAE option sets, plus a few accepted ones.  A must-reject model is rejected under EVERY option set."""
+    out, k = [], 0
+    for c in category_cases(rng):
+        if not c["kind"].startswith("table:outside"):
+            continue
+        rej = bool(analyse(c)["reject_because"])
+        if rej or k % 5 == 0:
+            c["options"] = dict(RAE_SETS[k % 3])
+            c["kind"] = "rae:" + c["kind"].split(":", 2)[2]
+            for v in c["vars"]:
+                v["bind"] = None
+            out.append(c)
+        k += 1
+    return out
+
+
 def corpus_cases(rng):
     """test/models/Delay.mo and DelayForLoop.mo re-expressed in the case language + no-delay model."""
     out = []
@@ -1258,6 +1366,12 @@ def known_cases():
     for pt in c["points"]:
         pt["vals"]["p1"] = [2]
     out[TAG_RPV] = c
+    vs = [{"name": n, "kind": k, "vec": False, "bind": None} for n, k in (("p1", "param"), ("u1", "input"), ("x1", "plain"), ("y1", "plain"))]
+    c = {"N": N, "vars": vs, "kind": "known", "options": {"reduce_affine_expression": True},
+         "eqs": [["eq", ["der", "x1"], ["sub", ["v", "u1"], ["v", "x1"]]],
+                 ["eq", ["v", "y1"], ["delay", ["mul", ["num", 5], ["v", "x1"]], ["v", "p1"]]]]}
+    c["points"] = gen_points(rng, c, 1)
+    out[TAG_RAE] = c
     return out
 
 
@@ -1292,7 +1406,8 @@ def prepare(case):
     return c
 
 
-PREAMBLE = "From Coq Require Import ZArith.\nFrom PV Require Import Model.C22_delay.\nImport ListNotations.\n"
+PREAMBLE = ("From Coq Require Import ZArith.\nFrom PV Require Import Model.C22_delay Model.C22_simplify.\n"
+            "Import ListNotations.\n")
 
 
 def run(ctx):
@@ -1309,19 +1424,20 @@ def run(ctx):
             fps[path] = "unreadable: %r" % e
     ctx.notes["source_fingerprint"] = fps
 
-    cases = corpus_cases(ctx.rng) + category_cases(ctx.rng)
+    cases = corpus_cases(ctx.rng) + category_cases(ctx.rng) + offset_cases(ctx.rng)
     n_fixed = len(cases)
-    n_rand = ctx.scaled(140, 3000)
+    n_rand = ctx.scaled(100, 3000)
     for _ in range(n_rand):
         cases.append(gen_model(ctx.rng))
     cases += cache_cases(ctx.rng, ctx.scaled(14, 300))
-    for _ in range(ctx.scaled(40, 600)):
+    for _ in range(ctx.scaled(30, 600)):
         cases.append(gen_array_case(ctx.rng))
+    cases += rae_cases(ctx.rng)
     cases += chain_table(ctx.rng)
     for _ in range(ctx.scaled(20, 800)):
         cases.append(gen_chain_case(ctx.rng))
     cases += option_table(ctx.rng)
-    n_opt = ctx.scaled(40, 1200)
+    n_opt = ctx.scaled(25, 1200)
     for _ in range(n_opt):
         cases.append(gen_option_case(ctx.rng))
     for _ in range(ctx.scaled(8, 60)):
@@ -1358,10 +1474,11 @@ def run(ctx):
         if e is not None:
             enc.append(e)
             idx.append(i)
-        elif not v and modelled(c) and r.get("status") != "error":
+        elif not v and (modelled(c) or chain_modelled(c)) and r.get("status") != "error":
             core.violation(ctx, "impl-violation", {"input": c, "observed": r, "what": "observation has no model counterpart"})
     t_coq = time.time()
-    bad = core.coq_eval_cases(ctx, "gen", PREAMBLE, "model * list envd * obs", enc, "check_case", shard=40)
+    bad = core.coq_eval_cases(ctx, "gen", PREAMBLE, "(model * list envd * obs) + (smodel * opts * list envd * obs)", enc,
+                              "check_any", shard=48)
     t_coq = time.time() - t_coq
     ctx.notes["timing_s"] = {"props_recompile": round(t_props, 1), "implementation_children": round(t_child, 1), "coq_correspondence": round(t_coq, 1)}
     mism = list(range(len(enc))) if bad is None else bad
